@@ -32,11 +32,10 @@ type tierCfg struct {
 }
 
 type propCfg struct {
-	Quick, Thorough tierCfg
-	Race            bool   // needs the -race executor
-	Rule            string // generator + non-triviality rule, in words
-	Assumptions     []string
-	FuzzTarget      string // name of a native fuzz target in ./fuzz (thorough tier)
+	Race        bool   // needs the -race executor
+	Rule        string // generator + non-triviality rule, in words
+	Assumptions []string
+	FuzzTarget  string // name of a native fuzz target in ./fuzz (thorough tier)
 }
 
 var props = map[string]propCfg{}
@@ -194,10 +193,7 @@ func main() {
 			seed = n
 		}
 	}
-	tc := cfg.Quick
-	if tier == "thorough" {
-		tc = cfg.Thorough
-	}
+	tc := tierOf(id, tier == "thorough")
 
 	violations := []string{}
 	inconclusive := []string{}
